@@ -394,6 +394,18 @@ def _calls_in_bodies(stmts, inside):
 
 
 HAND_SPECS = [
+    # two different functions called Scale in two domains: main graph, inside another function, inside an If
+    {"args": ["f", "b"], "inputs": [["x", 0], ["c", 1]],
+     "stmts": [["call", 0, [0]], ["call", 2, [2]],
+               ["if", 1, {"stmts": [["call", 1, [3]]], "outs": [4]}, {"stmts": [], "outs": [3]}, 17]],
+     "outputs": [["y", 4]], "drop": False,
+     "funcs": [{"name": "Scale", "domain": "dom.a", "nin": 1, "nout": 1,
+                "body": {"stmts": [["op", "add", 17, [0, 0]]], "outs": [1]}},
+               {"name": "Scale", "domain": "dom.b", "nin": 1, "nout": 1,
+                "body": {"stmts": [["op", "neg", 17, [0]]], "outs": [1]}},
+               {"name": "wrap", "domain": "dom.a", "nin": 1, "nout": 1,
+                "body": {"stmts": [["call", 1, [0]], ["call", 0, [1]]], "outs": [2]}}],
+     "models": []},
     # a newer opset version required ONLY inside a function body (called outside the If) + a v17 Split inside an If
     # branch: the branch has to be adapted against the model's opset 19 (Split 18 needs `num_outputs`)
     {"args": ["f", "b"], "inputs": [["x", 0], ["c", 1]],
@@ -506,9 +518,29 @@ def run(ck: core.Check):
         ck.broken("correspondence", "C14 driver", str(e))
         drv = None
 
-    n_oracle = ck.pick(700, 6000)
-    n_collect = ck.pick(400, 4000)
-    n_sem = ck.pick(250, 2500)
+    # tie G (change-triggered escalation): any edit of a covered spox function makes this run use the
+    # thorough generation counts (not a verdict by itself)
+    try:
+        from harness import lib_c02c14_sources as SRC
+
+        cur, diff = SRC.changed()
+        ck.cov["covered_sources"] = {"functions_hashed": len(cur), "differ_from_baseline": diff[:40],
+                                     "escalated_generation_counts_x2.5": bool(diff) and not ck.thorough}
+    except Exception as e:  # noqa: BLE001
+        diff = ["<hashing failed>"]
+        ck.cov["covered_sources"] = {"error": f"{type(e).__name__}: {e}"}
+    escalated = bool(diff) and not ck.thorough
+    if diff and not ck.thorough:
+        ck.log(f"covered sources changed ({len(diff)}: {', '.join(diff[:4])}{' ...' if len(diff) > 4 else ''}) "
+               "-> 2.5x generation counts")
+
+    def pick(q, t):
+        # (the full thorough counts would take the quick tier far beyond its time budget on a loaded machine)
+        return t if ck.thorough else (min(t, int(q * 2.5)) if escalated else q)
+
+    n_oracle = pick(700, 6000)
+    n_collect = pick(400, 4000)
+    n_sem = pick(250, 2500)
     tasks = ([(ck.seed, i, "oracle") for i in range(n_oracle)]
              + [(ck.seed, 10**6 + i, "collect") for i in range(n_collect)]
              + [(ck.seed, 2 * 10**6 + i, "sem") for i in range(n_sem)])
